@@ -156,19 +156,19 @@ impl ClientRequest {
 //@fn iroh-relay/src/server.rs ClientRequest::auth_token props=C12 ret=r letchains letelsecontinue bindtail=res_
 //@| ensures opt_view(r) == token_rule(values_of(self.request.headers, AUTHORIZATION), query_of(self.request.uri))
 //@rwx R27 1
-//@- for value in self\.request\.headers\.get_all\(AUTHORIZATION\) \{
-//@+ let hv_ = self.request.headers.get_all_list(AUTHORIZATION); for value in it: hv_.iter() {
+//@- for (\w+) in self\.request\.headers\.get_all\(AUTHORIZATION\) \{
+//@+ let hv_ = self.request.headers.get_all_list(AUTHORIZATION); for \1 in it: hv_.iter() {
 //@loop 1
 //@| invariant hv_@ == values_of(self.request.headers, AUTHORIZATION), header_scan(hv_@, 0) == header_scan(hv_@, it.index@ as int),
 //@rwx R9 *
-//@- value\.split_once\(('.')\)
-//@+ str_split_once(value, \1)
+//@- (\w+)\.split_once\(('.')\)
+//@+ str_split_once(\1, \2)
 //@rwx R9 *
-//@- scheme\.eq_ignore_ascii_case\(("[^"]*")\)
-//@+ str_eq_ignore_ascii_case(scheme, \1)
+//@- (\w+)\.eq_ignore_ascii_case\(("[^"]*"|[A-Z_]+)\)
+//@+ str_eq_ignore_ascii_case(\1, \2)
 //@rwx R15 *
-//@- token\.to_string\(\)
-//@+ str_to_string(token)
+//@- \b(token|\w*token\w*)\.to_string\(\)
+//@+ str_to_string(\1)
 //@rwx R8 1
 //@- self\.query_pairs\(\)\s*\.find\(
 //@+ let mut qp_ = self.query_pairs(); let ghost qv_ = qp_.pairs@; let found_ = qp_.find(
